@@ -29,6 +29,7 @@ TRANSLATOR_PARTS += ["melody"]
 # validators part's Mir.GenV.pattern.validate / _n_onset_midi); Props/C04_GenPattern.lean proves the generated definitions
 # equal to the hand-written pattern model for all pattern lists; suite `gen_pattern` runs them (driver op `gen.pattern`)
 TRANSLATOR_PARTS += ["validators", "pattern"]
+TRANSLATOR_PARTS += ["beat"]     # trim_beats, _get_reference_beat_variations, p_score regenerated (lean/MirGen/Beat.lean); Props/C04_GenBeat.lean; suite gen_beat
 _here = os.path.dirname(os.path.abspath(__file__))
 _props = os.path.join(os.path.dirname(os.path.dirname(_here)), "lean", "MirProofs", "Props")
 LEAN_MODULES = sorted("MirProofs.Props." + os.path.basename(f)[:-5]
@@ -376,6 +377,18 @@ def _gp_available():
     import proto
     try:
         outs = core.run_driver(["0 gen.pattern %s\n" % proto.enc("?")])
+
+# ------------------------------------------------------------------------------------------------
+# suite gen_beat: the GENERATED beat definitions (lean/MirGen/Beat.lean, driver op `gen.beat`) vs the real functions, and the
+# primitives of lean/MirModel/PyBeat.lean (`pybeat.*`: np.arange, np.interp, a[k::2]) vs NumPy — the translator's semantic
+# assumptions
+
+def _gb_available():
+    """the functions the translator emitted on THIS run (driver op `gen.beat "?"`)"""
+    import core
+    import proto
+    try:
+        outs = core.run_driver(["0 gen.beat %s\n" % proto.enc("?")])
         v = proto.dec_line(outs[0])[1]
     except Exception:  # noqa: BLE001
         return set()
@@ -451,6 +464,150 @@ def suite_gen_pattern(rng, tier, shard, nshards):
 
 
 SUITES["gen_pattern"] = suite_gen_pattern
+def _gb_case(fn, args, call, tag, nontrivial=True):
+    from suites import beat as BS
+    return Case("gen.beat", [fn] + list(args), call, tag=tag, nontrivial=nontrivial,
+                info={"op": "gen.beat", "fn": fn, "args": BS.jargs(list(args))})
+
+
+def _gb_prim_cases(rng, tier):
+    import itertools
+    import numpy as np
+    import gen
+    from fractions import Fraction as Fr
+    halves = [Fr(k, 2) for k in range(-2, 9)]
+    for start, stop in itertools.product(halves[::2], halves):
+        for step in (Fr(1, 2), Fr(1), Fr(3, 2), Fr(1, 4)):
+            yield Case("pybeat.arange", [start, stop, step],
+                       lambda a=start, b=stop, c=step: np.arange(float(a), float(b), float(c)), tag="prim arange",
+                       info={"op": "pybeat.arange", "args": [str(start), str(stop), str(step)]})
+    vals = [Fr(0), Fr(1, 2), Fr(1), Fr(3, 2), Fr(2), Fr(5, 2), Fr(-1), Fr(3), Fr(7, 4)]
+    for lx, lp, lf in itertools.product(range(4), range(5), range(5)):
+        if lp != lf and rng.random() < 0.5:
+            continue
+        for _ in range(2 if tier == "quick" else 8):
+            xs = [rng.choice(vals) for _ in range(lx)]
+            xp = sorted(rng.choice(vals) for _ in range(lp))                 # non-decreasing, duplicates on purpose
+            if rng.random() < 0.5:
+                xp = [Fr(i) for i in range(lp)]
+            fp = [rng.choice(vals) * 3 for _ in range(lf)]
+            yield Case("pybeat.interp", [xs, xp, fp],
+                       lambda xs=xs, xp=xp, fp=fp: np.interp(gen.arr(xs), gen.arr(xp), gen.arr(fp)),
+                       tag="prim interp %s" % ("equal" if lp == lf else "unequal"),
+                       info={"op": "pybeat.interp", "args": [[str(v) for v in w] for w in (xs, xp, fp)]})
+    for n in range(7):
+        a = [Fr(rng.randint(0, 64), 32) for _ in range(n)]
+        for k in range(4):
+            yield Case("pybeat.step2", [a, k], lambda a=a, k=k: gen.arr(a)[k::2], tag="prim step2",
+                       info={"op": "pybeat.step2", "args": [[str(v) for v in a], k]})
+    # the p_score primitives
+    def P(op, args, call, tag):
+        from suites import beat as BS
+        return Case("pybeat." + op, args, call, tag="prim " + tag, info={"op": "pybeat." + op, "args": BS.jargs(args)})
+    for n in range(4):
+        for _ in range(3):
+            a = [Fr(rng.randint(-64, 64), 32) for _ in range(n)]
+            yield P("vmin", [a], lambda a=a: gen.arr(a).min(), "min/max")
+            yield P("vmax", [a], lambda a=a: np.max(gen.arr(a)), "min/max")
+    for q in (Fr(100), Fr(5, 2), Fr(-5, 2), Fr(0), Fr(-7), Fr(199, 2), Fr(-1, 32)):
+        yield P("truncR", [q], lambda q=q: int(float(q)), "int")
+    for n in (-2, -1, 0, 1, 3):
+        yield P("zeros", [n], lambda n=n: np.zeros(n), "zeros")
+    for n in (0, 1, 3, 5):
+        for _ in range(6):
+            t = [rng.choice([0, 0, 1]) for _ in range(n)]
+            idx = [rng.randint(-n - 1, n) for _ in range(rng.randint(0, 3))]
+
+            def store(t=t, idx=idx):
+                w = np.array(t, dtype=float)
+                w[np.array(idx, dtype=np.int64)] = 1.0
+                return w
+            yield P("setOnes", [t, idx], store, "setOnes")
+            yield P("flatnonzero", [t], lambda t=t: np.flatnonzero(np.array(t, dtype=float)), "flatnonzero")
+            v = [rng.choice([0, 1]) for _ in range(rng.choice([0, 1, 2, 4]))]
+            yield P("correlate", [t, v], lambda t=t, v=v: np.correlate(np.array(t, dtype=float), np.array(v, dtype=float), "full"),
+                    "correlate")
+    for n in range(5):
+        for _ in range(4):
+            l = [rng.randint(1, 9) for _ in range(n)]
+            if n:                                            # np.median([]) = nan (with a RuntimeWarning): via roundMul only
+                yield P("median", [l], lambda l=l: float(np.median(np.array(l, dtype=np.int64))), "median")
+            for a in (Fr(1, 5), Fr(1, 2), Fr(1, 4), Fr(3, 2), Fr(-1, 2), Fr(0)):
+                def rm(a=a, l=l):
+                    import warnings
+                    with warnings.catch_warnings():
+                        warnings.simplefilter("ignore")
+                        return int(np.round(float(a) * np.median(np.array(l, dtype=np.int64))))
+                yield P("roundMul", [a, l], rm, "int(round(thr * median))")
+
+
+def suite_gen_beat(rng, tier, shard, nshards):
+    avail = _gb_available()
+    for c in _suite_gen_beat(rng, tier, shard, nshards):
+        if c.op != "gen.beat" or c.args[0] in avail:
+            yield c
+
+
+def _suite_gen_beat(rng, tier, shard, nshards):
+    """ALL beat lists of length <= 3 (quick) / 4 over a 4-point lattice (duplicates included) through
+    `_get_reference_beat_variations` and `trim_beats` with the threshold on / between / outside the beats; the existing
+    beat pre-processing stream re-targeted at the generated definitions; the run-time primitives against NumPy"""
+    import itertools
+    import mir_eval.beat as B
+    from fractions import Fraction as Fr
+    from suites import beat as BS
+    lat = [Fr(5), Fr(11, 2), Fr(6), Fr(29, 4)]
+    k = 0
+    for n in range(0, 4 if tier == "quick" else 5):
+        for combo in itertools.combinations_with_replacement(lat, n):
+            k += 1
+            if k % nshards != shard:
+                continue
+            x = list(combo)
+            yield _gb_case("_get_reference_beat_variations", [x],
+                           lambda x=x: list(B._get_reference_beat_variations(BS.A(x))), "all n=%d" % n, n > 1)
+            for t in (None, Fr(5), Fr(11, 2), Fr(23, 4), Fr(8), Fr(0)):
+                call = (lambda x=x: B.trim_beats(BS.A(x))) if t is None else (lambda x=x, t=t: B.trim_beats(BS.A(x), float(t)))
+                yield _gb_case("trim_beats", [x, t], call, "all n=%d" % n, n > 0)
+            # not sorted (trim_beats does not validate)
+            if n >= 2:
+                y = x[::-1]
+                yield _gb_case("trim_beats", [y, Fr(11, 2)], lambda y=y: B.trim_beats(BS.A(y), 5.5), "unsorted n=%d" % n)
+    for c in BS.SUITES["beat.pre"](rng, tier, shard, nshards):
+        if c.op in ("beat.trim_beats", "beat._get_reference_beat_variations"):
+            fn = c.op.split(".", 1)[1]
+            yield Case("gen.beat", [fn] + list(c.args), c.call, tol=c.tol, tag="gen " + c.tag,
+                       info=dict(c.info or {}, op="gen.beat", fn=fn), nontrivial=c.nontrivial, post=c.post)
+    # p_score: the existing streams (regular / degenerate / loose pairs, every threshold incl. > 1 where the slice start wraps
+    # around, 0 and negative ones) asked of the generated definition ...
+    for name, real_op in (("beat.p_score", "beat.p_score"), ("beat.p_score_literal", "beat.p_score_literal")):
+        for j, c in enumerate(BS.SUITES[name](rng, tier, shard, nshards)):
+            if tier == "quick" and j >= 40:
+                break                                        # (per shard; the full-correlation model is quadratic in the span)
+            if c.op == real_op:
+                yield Case("gen.beat", ["p_score"] + list(c.args), c.call, tol=c.tol, tag="gen p_score " + c.tag,
+                           info=dict(c.info or {}, op="gen.beat", fn="p_score"), nontrivial=c.nontrivial, post=c.post)
+    # ... and ALL pairs of beat lists of length <= 2 (quick) / 3 over a small lattice: empty, one beat, duplicates, all beats
+    # in one 10 ms sample, unsorted (ValueError), default threshold (None) and a wrapping one
+    plat = [Fr(5), Fr(5) + Fr(1, 128), Fr(11, 2), Fr(13, 2)]
+    lists = [list(t) for n in range(0, 3 if tier == "quick" else 4) for t in itertools.product(plat, repeat=n)]
+    k = 0
+    for r in lists:
+        for e in lists:
+            k += 1
+            if k % nshards != shard:
+                continue
+            for thr in (None, Fr(3)):
+                call = (lambda r=r, e=e: B.p_score(BS.A(r), BS.A(e))) if thr is None else \
+                    (lambda r=r, e=e, thr=thr: B.p_score(BS.A(r), BS.A(e), float(thr)))
+                yield _gb_case("p_score", [r, e, thr], call, "all pairs n<=%d" % max(len(r), len(e)),
+                               len(r) >= 2 and len(e) >= 2)
+    if shard == 0:
+        for c in _gb_prim_cases(rng, tier):
+            yield c
+
+
+SUITES["gen_beat"] = suite_gen_beat
 
 CHECKERS = {"documented_defaults": check_defaults}
 ORACLES = {"documented_defaults": gen_defaults}
